@@ -70,7 +70,9 @@ def work_logic(lname):
 # ------------------------------------------------------------------ bounded decide cross-check
 
 def _decide_chunk(job):
-    lname, argstrs, optsets = job
+    lname, argstrs, optsets = job[:3]
+    import time as _time
+    deadline = _time.time() + (job[3] if len(job) > 3 else 10 ** 9)      # wall-clock budget of the chunk: what is not reached is not counted
     from pytableaux.lang import Argument
     from bounded import prover as P, args as A_
     logic = RS.registry()(lname)
@@ -79,6 +81,7 @@ def _decide_chunk(job):
     n = 0
     stalls = 0
     for i, astr in enumerate(argstrs):
+        if _time.time() > deadline: break
         arg = Argument(astr)
         want, cm = E.tt_valid(sem, arg.premises, arg.conclusion)
         opts = optsets[i % len(optsets)]
@@ -110,15 +113,15 @@ def bounded_decide(ctx):
             sample = mid + [A.random_argument(rnd, 'prop', depth=4).argstr() for _ in range(150)]
         else:
             sample = small + rnd.sample(mid, 40) + [A.random_argument(rnd, 'prop', depth=3, max_premises=1).argstr() for _ in range(10)]
-        for i in range(0, len(sample), 400):
-            jobs.append((L, sample[i:i + 400], OPTS))
+        for i in range(0, len(sample), 200):
+            jobs.append((L, sample[i:i + 200], OPTS, 600 if ctx.thorough else 120))
     total = 0; fails = []
     for n, out in pmap(_decide_chunk, jobs):
         total += n; fails += out
-    distinct = len({(j[0], a) for j in jobs for a in j[1]})
+    distinct = min(len({(j[0], a) for j in jobs for a in j[1]}), total)      # pairs actually evaluated (a chunk may stop at its time budget)
     ctx.bounded_part(evaluations=total, distinct_nontrivial=distinct,
                      rule='propositional arguments (exhaustive up to 1 connective, sampled/exhaustive up to 2, seeded random deeper) x 57 logics, option combinations rotated; verdict of the real prover vs truth-table validity computed from spec/; distinct = distinct (logic, argument) pairs',
-                     bound=('exhaustive <= 2 connectives + 150 random depth<=4 per logic' if ctx.thorough else 'exhaustive <= 1 connective + 40 sampled of <= 2 + 10 random depth<=3 per logic; harness caps (1500 steps / 1.5 s) are skipped, not counted as verdicts'),
+                     bound=('exhaustive <= 2 connectives + 150 random depth<=4 per logic, in chunks of 200 arguments that stop after 600 s each (evaluations counts what was actually run)' if ctx.thorough else 'exhaustive <= 1 connective + 40 sampled of <= 2 + 10 random depth<=3 per logic; harness caps (1500 steps / 1.5 s) are skipped, not counted as verdicts; a chunk of 200 arguments stops after 120 s'),
                      samples=[dict(logic='K3', argument=small[5]), dict(logic='S4', argument=mid[100])] + fails[:3], label='decide')
     for f in fails:
         ctx.bounded_failure(f"C03.decide.{f['logic']}", f"prover says {f['outcome']} but truth-table validity is {f['truth_table_valid']} for {f['argument']} with {f['options']}", f, instance=f['argument'])
